@@ -35,7 +35,7 @@ def fmtArgs (fl : FmtFlags) (verb : Char) : Char × Int :=
 def fmtSplit (fl : FmtFlags) (buf : List Char) : List Char × List Char :=
   match buf with
   | '-' :: rest => (['-'], rest)
-  | '+' :: rest => ((if fl.space then [' '] else ['+']), rest)
+  | '+' :: rest => ((if fl.space && !fl.plus then [' '] else ['+']), rest)
   | _ => ((if fl.plus then ['+'] else if fl.space then [' '] else []), buf)
 
 def fmtPad (fl : FmtFlags) (sign body : List Char) : Nat :=
@@ -393,7 +393,7 @@ theorem fmtSplit_of_headNotSign (fl : FmtFlags) (l : List Char) (h : HeadNotSign
 /-- The sign `Format` writes. -/
 def fmtSignChars (x : Dec) (fl : FmtFlags) : List Char :=
   if x.neg then ['-']
-  else if x.form == .inf then (if fl.space then [' '] else ['+'])
+  else if x.form == .inf then (if fl.space && !fl.plus then [' '] else ['+'])
   else if fl.plus then ['+'] else if fl.space then [' '] else []
 
 /-- The text of `Append` without its sign. -/
